@@ -134,9 +134,17 @@ namespace nmtools::meta
                 // TODO: use resize instead
                 return as_value_v<array::static_vector<index_t,(max_dim > nd ? max_dim : nd)>>;
             } else if constexpr (is_index_array_v<shape_t>) {
-                using index_t = get_element_or_common_type_t<shape_t>;
+                using element_t = remove_cvref_t<get_element_or_common_type_t<shape_t>>;
                 // TODO: support small_vector/small_buffer
-                return as_value_v<nmtools_list<index_t>>;
+                if constexpr (is_clipped_integer_v<element_t>) {
+                    // the bounds belong to the axes of the src shape, not to the axes of the result
+                    // (a list of clipped integer clips the products computed from it)
+                    using index_t = typename element_t::value_type;
+                    return as_value_v<nmtools_list<index_t>>;
+                } else {
+                    using index_t = get_element_or_common_type_t<shape_t>;
+                    return as_value_v<nmtools_list<index_t>>;
+                }
             } else if constexpr (is_none_v<shape_t> && is_constant_index_v<nd_t>) {
                 return template_reduce<nd_t::value-1>([](auto init, [[maybe_unused]] auto index){
                     using init_t = type_t<decltype(init)>;
